@@ -78,7 +78,9 @@ def collect(ctx):
         ts.append(L.from_hdm(drv_hdm.run(p, drv_hdm.history(rng, p, 12, sizes=[3, 3, 4, 5]), rng.randrange(10 ** 6))))
     for i in range(6 * k):
         p = {"k_nn": 3, "sampling_times": 30, "alpha": rng.choice([0.05, 0.2])}
-        ts.append(L.from_nndvi(drv_nn.run_nndvi(p, drv_nn.nndvi_history(rng, 8), rng.randrange(10 ** 6))))
+        hist = drv_nn.nndvi_history(rng, 8)
+        p["k_nn"] = drv_nn.safe_k(hist, p["k_nn"])
+        ts.append(L.from_nndvi(drv_nn.run_nndvi(p, hist, rng.randrange(10 ** 6))))
     for i in range(8 * k):
         p = drv_pca.params(rng)
         p["window_size"] = rng.choice([20, 30])
